@@ -499,7 +499,7 @@ var c14TiCorpus = []string{
 	"mutation M { m(x: 1) { b { ... { un { ... on Nope { a } ... { __typename } } } } } }\nsubscription S { s { c t { i { a(zz: 1, in: {zz: 1, l: [[1]]}) } } } }",
 }
 
-func genC14TypeInfo(tier string, seed uint64, n int, tb *c14Tables, e *Emitter) {
+func c14GenTypeInfo(tier string, seed uint64, n int, tb *c14Tables, e *Emitter) {
 	env := c14TiBuild()
 	idx := uint64(500000)
 	for _, src := range c14TiCorpus {
